@@ -41,12 +41,14 @@ def write_input(d, case, name='in.bam'):
     def _write(path_, genome_, frags_, **kw):
         return _real_write(path_, genome_, frags_, extra_header=extra_header, **kw)
     st = p.get('index_state')
-    if st and st[0] == 'stale':
-        # an earlier, different version of the file was indexed; the file was then re-written in place and the old index left behind
-        _write(path, case['genome'], case['workload'][:max(1, len(case['workload']) // 2)], encoded=p.get('encoded', True), lib=p.get('lib', 'LIB'))
+    if st and st[0] in ('stale', 'stale-empty'):
+        # an earlier, different version of the file was indexed (half of the records, or an empty placeholder of a failed first attempt);
+        # the file was then re-written in place and the old index left behind
+        first = case['workload'][:max(1, len(case['workload']) // 2)] if st[0] == 'stale' else []
+        _write(path, case['genome'], first, encoded=p.get('encoded', True), lib=p.get('lib', 'LIB'))
         os.rename(path + '.bai', path + '.bai.old')
     _write(path, case['genome'], case['workload'], encoded=p.get('encoded', True), lib=p.get('lib', 'LIB'))
-    if st and st[0] == 'stale':
+    if st and st[0] in ('stale', 'stale-empty'):
         os.replace(path + '.bai.old', path + '.bai')
         t = os.path.getmtime(path)
         os.utime(path + '.bai', (t - st[1], t - st[1]))     # simulated clock: the index is st[1] seconds older than the BAM
